@@ -13,7 +13,7 @@ from .. import common as C
 from .. import graph_hist as H
 
 LEVEL = 'proof'
-NEEDS = ['Base', 'Dec', 'Names', 'NamesProofs', 'CorrNames', 'Graph', 'GraphObs', 'GraphTS', 'GraphInv', 'GraphLemmas', 'GraphInvProofs']
+NEEDS = ['SFTSNode', 'SFCodec', 'Extracted', 'SourceFacts', 'Base', 'Dec', 'Names', 'NamesProofs', 'CorrNames', 'Graph', 'GraphObs', 'GraphTS', 'GraphInv', 'GraphLemmas', 'GraphInvProofs']
 
 TOKENS = ['X', ' ', '\n', 'lag', 'future', '(n=', ')', '0', '1', '12', ' lag(n=1)', ' future(n=2)', 'flag(n=3)']
 LAGS = [0, 1, -1, 2, -12, 30, -7, 5]
